@@ -2122,8 +2122,19 @@ func (s *compressedBodyStream) Close() error {
 }
 
 func (s *compressedBodyStream) write(sw *bufio.Writer) {
+	defer close(s.done)
+	defer func() {
+		// bodyStream.Read runs in this goroutine: a panic here would kill the
+		// process instead of failing the response like Response.writeBodyStream does.
+		if r := recover(); r != nil {
+			err := &ErrBodyStreamWritePanic{
+				error: fmt.Errorf("panic while compressing body stream: %+v", r),
+			}
+			s.closeOriginal(err) //nolint:errcheck
+			s.closeErr = err
+		}
+	}()
 	s.closeErr = s.closeOriginal(s.compress(sw, s.bodyStream, s.level))
-	close(s.done)
 }
 
 func (s *compressedBodyStream) closeOriginal(wErr error) error {
